@@ -592,7 +592,10 @@ def c06_layouts(tier, seed):
                   (("lit", pats[0], "hex_"), False, [], "hex literal with underscores, all ones"),
                   (("lit", pats[1] | 1, "hex"), "debug_after", [], "literal default followed by `debug`"),
                   (("const", pats[0]), "debug_before", [], "`debug` written before a named-constant default"),
-                  (("lit", pats[2], "dec"), "trailing_comma", [lowf], "literal default with a trailing comma")]
+                  (("lit", pats[2], "dec"), "trailing_comma", [lowf], "literal default with a trailing comma"),
+                  (("lit", pats[0], "sfx"), False, [lowf], "upper-case hex literal with the storage type as suffix, all ones"),
+                  (("lit", pats[3] | 1, "dec_sfx"), False, [], "decimal literal with the storage type as suffix"),
+                  (("lit", 0, "dec"), False, [lowf], "literal default 0")]
         if tier != "quick":
             forms += [(("lit", pats[2], "dec"), False, [], "literal 1, no fields"),
                       (("const", pats[0]), True, [lowf], "named constant all ones, legacy syntax"),
@@ -1320,8 +1323,20 @@ def c13_layouts(tier, seed):
     return Ls
 
 
+def many_field_layouts():
+    """structs with 9 / 17 / 33 / 65 writable fields (one more than 8, 16, 32, 64): complete covers
+    without default and partial covers with a default"""
+    Ls = []
+    for (n, W) in ((9, 16), (17, 32), (33, 64), (65, 128), (17, 24), (33, 100)):
+        fs = [Field(f"b{k}", T_bool() if k % 3 else T_uint(1), [(k, 1)], None, "rw" if k % 5 else "w") for k in range(n)]
+        Ls.append(Layout(W, fs, default=("lit", mask(W) ^ 0x2, "hex"), tag=f"{n} one-bit fields on u{W} with a default"))
+        fs2 = [Field(f"b{k}", T_bool(), [(k, 1)], None, "rw") for k in range(n - 1)] + [Field("rest", ty_for_width(W - n + 1, "u1"), [(n - 1, W - n + 1)], None, "rw")]
+        Ls.append(Layout(W, fs2, tag=f"{n} fields covering u{W} completely, no default"))
+    return Ls
+
+
 def plan_c13(tier, seed):
-    Ls = [L for L in c13_layouts(tier, seed) if L.builder_expected()]
+    Ls = [L for L in c13_layouts(tier, seed) + many_field_layouts() if L.builder_expected()]
     us = units_from(Ls, lambda L: [h_builder(L)])
     for k in (0, len(us) // 2, len(us) - 1):
         L = us[k].meta["layout"]
@@ -2098,6 +2113,7 @@ def plan_c14(tier, seed):
     # plus the builder-eligible random layouts of C13 (eligible => offered) and C12's overlapping ones (not eligible)
     c13 = c13_layouts("quick", 0)
     extra = [(L, "") for L in (c13[:25] + c13[-8:] if tier == "quick" else c13_layouts("thorough", seed)[:200] + c13[-8:])]
+    extra += [(L, "") for L in many_field_layouts()]
     extra += [(L, "overlapping-random-layout") for L in c12_layouts("quick", 0) if not L.builder_expected()][: (12 if tier == "quick" else 60)]
     for W in (8, 32, 24, 128):
         h = W // 2
